@@ -110,3 +110,23 @@ Example c19_witness :
       (lg (snd (run 10 [10%N] [] [Emit [1;2;3]; Emit [4;5;6]; Emit [7;7;7]; Emit [8]; Emit [9;9;9;9;9;9;9;9;9]; Emit [1]]%N)))
   = [(2, 8); (4, 6); (5, 10); (6, 2)].
 Proof. vm_compute. reflexivity. Qed.
+
+(* ==== added after the audit of 2026-10-02 (selftest/audit/REPORT-2026-10-02.md) ==== *)
+Require Import Cadence.Proofs.AuditW.
+
+(* [A.12] an explicit flush with an empty buffer (any state): no write is attempted, no outcome
+   of the environment is consumed, the answer is Ok(0) *)
+Theorem c19_flush_nothing_pending : forall c e script ops rs s n x s',
+  run_from (init c e script) 0 ops = (rs, s) -> step s n Flush = (x, s') -> bbuf s = [] ->
+  lg s' = lg s /\ x = OOk 0.
+Proof. exact flush_nothing_pending_reach. Qed.
+
+Theorem c19_flush_nothing_pending_any : forall s n x s',
+  step s n Flush = (x, s') -> bbuf s = [] ->
+  x = OOk 0 /\ lg s' = lg s /\ sc s' = sc s /\ bbuf s' = [] /\ bids s' = [] /\ written s' = 0.
+Proof. exact flush_nothing_pending. Qed.
+
+(* conversely, with a non-empty buffer an explicit flush always attempts a write *)
+Theorem c19_flush_something_pending : forall s n x s',
+  step s n Flush = (x, s') -> bbuf s <> [] -> length (lg s) < length (lg s').
+Proof. exact flush_something_pending. Qed.
